@@ -525,7 +525,11 @@ func ordRunCase(t *testing.T, out *verifOut, id string, c *ordCase) {
 				}
 			}
 			synctest.Wait()
-			time.Sleep(2 * time.Second)
+			settle := 2 * time.Second // every handler still queued gets the time it needs
+			for _, m := range c.msgs {
+				settle += time.Duration(m.d) * time.Millisecond
+			}
+			time.Sleep(settle)
 			synctest.Wait()
 		}
 		h.mu.Lock()
@@ -792,7 +796,7 @@ func TestVerifOrder(t *testing.T) {
 		}
 	}
 	rng := verifRng(31)
-	n := verifN(900, 20000)
+	n := verifN(4000, 20000)
 	maxLen := 8
 	if verifThorough() {
 		maxLen = 14
